@@ -1,6 +1,15 @@
 package ref
 
-import "errors"
+import (
+	"errors"
+	"sync/atomic"
+)
+
+// RcEvents counts rare coincidences the reference range decoder passed through (the encoder that
+// wrote the stream passed through the same range values): a range of exactly 2^24-1 (one below
+// the normalisation threshold) or exactly 2^24 after a coded bit / after a direct bit. They are
+// evidence that the streams a check decoded exercised these boundaries; they decide nothing.
+var RcEvents struct{ BitBelowTop, BitAtTop, DirectBelowTop, DirectAtTop atomic.Int64 }
 
 // ErrTrunc is returned when the compressed input ends inside a structure.
 var ErrTrunc = errors.New("ref: truncated input")
@@ -67,6 +76,13 @@ func (d *rdec) bit(p *uint16) uint32 {
 		s = 1
 	}
 	*p = uint16(v)
+	if d.rng-(1<<24-1) <= 1 { // 2^24-1 or 2^24 (unsigned difference)
+		if d.rng == 1<<24-1 {
+			RcEvents.BitBelowTop.Add(1)
+		} else if d.rng == 1<<24 {
+			RcEvents.BitAtTop.Add(1)
+		}
+	}
 	d.normalize()
 	return s
 }
@@ -78,6 +94,11 @@ func (d *rdec) direct(n int) uint32 {
 		d.code -= d.rng
 		t := 0 - (d.code >> 31)
 		d.code += d.rng & t
+		if d.rng == 1<<24-1 {
+			RcEvents.DirectBelowTop.Add(1)
+		} else if d.rng == 1<<24 {
+			RcEvents.DirectAtTop.Add(1)
+		}
 		d.normalize()
 		res = res<<1 + t + 1
 	}
